@@ -96,6 +96,23 @@ def make_image(rnd, ns, nf, kind):
     elif kind == "single":
         cy, cx = rnd.randint(1, ns - 2), rnd.randint(1, nf - 2)
         base = -((yy - cy) ** 2 + 1.37 * (xx - cx) ** 2) + g.random((ns, nf)) * 1e-3
+    elif kind == "snake":
+        # one ridge that winds left-right through the whole image (every second row, joined at alternating ends): the ascent
+        # path to its single maximum is about rows*columns/2 steps long, far longer than rows+columns
+        base = g.random((ns, nf)) * 0.5
+        path = []
+        rows = list(range(1, ns - 1, 2))
+        for q, r in enumerate(rows):
+            cols = list(range(1, nf - 1))
+            if q % 2:
+                cols = cols[::-1]
+            path += [(r, c) for c in cols]
+            if q + 1 < len(rows):
+                path.append((r + 1, cols[-1]))
+        if rnd.random() < 0.5:
+            path = path[::-1]
+        for k, (r, c) in enumerate(path):
+            base[r, c] = 10.0 + k
     elif kind == "edge":  # maxima next to the border, border ring low or high
         base = g.random((ns, nf))
         base[1, :] += 2
@@ -120,7 +137,7 @@ def make_image(rnd, ns, nf, kind):
     return ranks.reshape(ns, nf)
 
 
-KINDS = ["perm", "gauss", "gauss", "ramp", "single", "edge", "ridge", "ridge"]
+KINDS = ["perm", "gauss", "gauss", "ramp", "single", "edge", "ridge", "ridge", "snake"]
 
 
 class C13(object):
@@ -338,7 +355,39 @@ class C13(object):
                                       "last call, are not steepest ascent on that frame (%d labels reported, %d maxima)" %
                                       (len(objs), lname, k, nl, nmax)}
                     break
+        nbig = 0
+        if viol is None:
+            rb = random.Random(len(frames) * 31 + sum(len(f["val"]) for f in frames) + 5)
+            if rb.random() < 0.25:
+                # an unsorted frame of a detector-sized image (more than 65536 pixels) is sorted with sort() and labelled
+                import io, contextlib
+                bs0, bs1 = rb.choice([(300, 420), (512, 384), (1024, 130)])
+                gb = np.random.default_rng(rb.getrandbits(32))
+                npx = 400
+                flat = gb.choice(bs0 * bs1, npx, replace=False)
+                # clusters: neighbours of the drawn pixels too, so that there is something to climb
+                rr_, cc_ = np.unravel_index(flat, (bs0, bs1))
+                rr_ = np.concatenate([rr_, np.minimum(rr_ + 1, bs0 - 1), rr_])
+                cc_ = np.concatenate([cc_, cc_, np.minimum(cc_ + 1, bs1 - 1)])
+                key = np.unique(rr_.astype(np.int64) * bs1 + cc_)
+                rr_, cc_ = np.divmod(key, bs1)
+                vals_ = gb.permutation(len(key)).astype(np.float32) + 1
+                pm = gb.permutation(len(key))
+                with contextlib.redirect_stdout(io.StringIO()):
+                    fb = self.sf.sparse_frame(rr_[pm].astype(np.uint16), cc_[pm].astype(np.uint16), (bs0, bs1),
+                                              pixels={"intensity": vals_[pm].copy()})
+                    fb.sort()
+                    nlb = self.sf.sparse_localmax(fb)
+                nbig = 1
+                refb, nmaxb = ref_sparse(rr_, cc_, vals_)
+                if not np.array_equal(np.asarray(fb.row), rr_) or not np.array_equal(np.asarray(fb.col), cc_) or \
+                        not np.array_equal(np.asarray(fb.pixels["intensity"]), vals_) or nlb != nmaxb or \
+                        not np.array_equal(np.asarray(fb.pixels["localmax"]), refb):
+                    viol = {"class": "labels-differ", "key": "sparse_localmax:labels-differ",
+                            "detail": "an unsorted frame of a %dx%d image, sorted with sort() and labelled: not in row-major order, or %d "
+                                      "labels for %d local maxima, or other labels than steepest ascent" % (bs0, bs1, nlb, nmaxb)}
         meas = enginea.run_measures(st, cfg)
+        meas["detector_sized_frames_sorted_and_labelled"] = nbig
         meas["frame_objects_labelled_in_sequence"] = nobj
         meas["relabelling_calls_on_one_scan"] = nrep
         meas["variant"] = {"SparseScan.lmlabel": 1}
